@@ -1,4 +1,4 @@
-import SignaloModel.Proofs.RegWavelet
+import SignaloModel.Proofs.BridgeConv
 set_option linter.unusedSectionVars false
 /-!
 C05 at registry level: the convolution filter is linear — the run on `a·x + b·y` is `a·(run on x) + b·(run on y)`,
